@@ -176,8 +176,18 @@ def check_slicing(ctx):
     sup = [n for n in ast.walk(fi.node) if isinstance(n, ast.Call) and norm_text(n.func).replace(' ', '') == 'super().__getitem__']
     ctx.ob('R4', fi, 'super().__getitem__(frames)', True if sup else None, 'slicing delegated to pymatgen (copies the selected frames)')
     fs = ctx.fn(f'{TRAJ}.split')
-    parts = [n for n in ast.walk(fs.node) if isinstance(n, ast.ListComp)]
-    for n in parts:
-        t = norm_text(n.elt).replace(' ', '')
-        ok = t.startswith('self[') or t.startswith('trajectory[')
-        ctx.ob('R4', fs, n, True if ok else None, 'parts are slices of the source' if ok else 'part construction not recognised')
+    its = ctx.entry(fs.qualname)
+    for rid, r in ctx.cfg(fs.qualname).returns():
+        if r.value is None:
+            continue
+        v = its.last.get(id(r.value)) or its.value_of(r.value)
+        el = (v.elem if v.elem is not None else None) if v is not None else None
+        if v is not None and v.elts:
+            from ..interp import join_all
+            el = join_all(v.elts)
+        if el is None or el.ty != 'obj':
+            ctx.ob('R4', fs, r, None, 'part construction not recognised')
+        elif (el.sliced_from is not None or el.site == '__getitem__') and not el.symbolic:
+            ctx.ob('R4', fs, r, True, 'parts are slices of the source (new objects made by __getitem__)')
+        else:
+            ctx.ob('R4', fs, r, False, 'a part is not a slice of the source: it aliases an existing trajectory object')
